@@ -200,7 +200,7 @@ def walk_notifications(ctx, spec, rng):
 
     for r in range(rounds):
         t += 2.0 ** -10
-        if mixed and join_at and r == join_at[0]:
+        while mixed and join_at and r >= join_at[0]:
             join_at.pop(0)
             h.at(t, lambda: res["eg"].subscribe(res["late"].pop(0)))
             t += 2.0 ** -10
